@@ -120,7 +120,12 @@ void ep_norm_sim(ep_t *r, const ep_t *t, int n) {
 		for (i = 0; i < n; i++) {
 			fp_null(a[i]);
 			fp_new(a[i]);
-			fp_copy(a[i], t[i]->z);
+			if (ep_is_infty(t[i])) {
+				/* Keep the simultaneous inversion well defined. */
+				fp_set_dig(a[i], 1);
+			} else {
+				fp_copy(a[i], t[i]->z);
+			}
 		}
 
 		fp_inv_sim(a, (const fp_t *)a, n);
@@ -135,7 +140,11 @@ void ep_norm_sim(ep_t *r, const ep_t *t, int n) {
 		}
 #if EP_ADD == PROJC || EP_ADD == JACOB || !defined(STRIP)
 		for (i = 0; i < n; i++) {
-			ep_norm_imp(r[i], r[i], 1);
+			if (ep_is_infty(t[i])) {
+				ep_set_infty(r[i]);
+			} else {
+				ep_norm_imp(r[i], r[i], 1);
+			}
 		}
 #endif /* EP_ADD == PROJC */
 	}
